@@ -80,6 +80,10 @@ type Type struct {
 	Log2First bool   `json:"log2First,omitempty"`
 	// Proc: the component is itself an (unordered, observing) ComponentPostProcessor.
 	Proc bool `json:"proc,omitempty"`
+	// FactoryPP / DefRegPP: the component is also a component-factory post-processor /
+	// a definition-registry post-processor (and nothing else: an ordinary component with a hook).
+	FactoryPP bool `json:"factoryPP,omitempty"`
+	DefRegPP  bool `json:"defRegPP,omitempty"`
 	// Zero: a field-less (zero-size) provider type: no handle, no custom name, one instance.
 	// Distinct zero-size components may share one address.
 	Zero bool `json:"zero,omitempty"`
